@@ -401,6 +401,13 @@ func (p *Program) installVerifModels() {
 		g.kind = fr.m.concreteInt(a[1], "file kind")
 		g.data = nil
 		g.gen++
+		if g.kind == 3 {
+			// an empty bbolt database: known to the bbolt model, so that opening it succeeds
+			// and the code under analysis sees a database without buckets
+			if sp := fr.m.P.byPath["go.etcd.io/bbolt"]; sp != nil && sp.Func("ModelMakeEmpty") != nil {
+				fr.m.call(fr, token.NoPos, sp.Func("ModelMakeEmpty"), []Value{a[0]})
+			}
+		}
 		return nil
 	}
 	// the environment as an adversary: see fsAdversaryPoint
@@ -436,6 +443,11 @@ func (p *Program) installVerifModels() {
 			unsupportedf("bbolt model function %s missing", name)
 		}
 		return fr.m.call(fr, token.NoPos, sp.Func(name), args)
+	}
+	v["verifBoltWriteFault"] = func(fr *frame, a []Value) Value {
+		callModel(fr, "ModelCommitFault", a[0], a[1])
+		fr.m.noteOnce("environment: while switched on, every commit on the named database file fails with a write error and is rolled back")
+		return nil
 	}
 	v["verifFlockHeld"] = func(fr *frame, a []Value) Value { return callModel(fr, "ModelFlockHeld", a[0]) }
 	v["verifCommitCount"] = func(fr *frame, a []Value) Value { return callModel(fr, "ModelCommitCount", a[0]) }
